@@ -109,6 +109,26 @@ func c12Generate(c *mon.Ctx) {
 		c.Structured(func() any { return &c12Case{Op: "parse32", In: in, Class: cl} })
 	}
 
+	// a limb whose product with a fold constant has an all-ones (or unit) low half, with and without a carry from below
+	udt := gen.UnitDigitTuples(p)
+	for _, v := range udt {
+		in := mon.H(oracle.Bytes32(v.X))
+		c.Structured(func() any { return &c12Case{Op: "parse32", In: in, Class: v.Class} })
+
+		if v.X.BitLen() <= 192 {
+			in24 := mon.H(oracle.Bytes32(v.X)[8:])
+			c.Structured(func() any { return &c12Case{Op: "parse24", In: in24, Class: v.Class} })
+		}
+	}
+
+	for i, v := range udt {
+		// both 24-byte chunks of the wide reduction
+		w := udt[(i*7+3)%len(udt)]
+		b48 := append(append([]byte{}, oracle.Bytes32(v.X)[8:]...), oracle.Bytes32(w.X)[8:]...)
+		in48 := mon.H(b48)
+		c.Structured(func() any { return &c12Case{Op: "wide48", In: in48, Class: "unit-digit"} })
+	}
+
 	two192 := new(big.Int).Lsh(big.NewInt(1), 192)
 	two384 := new(big.Int).Lsh(big.NewInt(1), 384)
 	halves := []*big.Int{big.NewInt(0), big.NewInt(1), new(big.Int).Sub(two192, big.NewInt(1)), new(big.Int).Lsh(big.NewInt(1), 191), new(big.Int).Lsh(big.NewInt(1), 64), new(big.Int).Sub(new(big.Int).Lsh(big.NewInt(1), 128), big.NewInt(1))}
